@@ -20,6 +20,9 @@ def build(sc: dict, lead: int = 0):
     o2 = np.array(sc["o2"], dtype=np.float64)
     failed = np.array(sc["failed"], dtype=bool)
     p = sc["k"] / sc["D"]
+    if sc.get("ulp"):            # the neighbouring float below / above k/D: the tail is the same up to rounding
+        p = float(np.nextafter(p, 0.0 if sc["ulp"] < 0 else 2.0))
+        p = min(p, 1.0)
     decoy = np.array([(7 * i + 3) % 5 - 2 for i in range(n)], dtype=np.float64)   # another ordering
     cfg = {
         "variables": {"initial_values": [0.0, 0.0]},
@@ -58,6 +61,16 @@ def build(sc: dict, lead: int = 0):
         for sect in ("objectives", "nonlinear_constraints"):
             if sect in cfg and "realization_filters" in cfg[sect]:
                 cfg[sect]["realization_filters"] = [i + lead if i >= 0 else i for i in cfg[sect]["realization_filters"]]
+        # ... and ANOTHER filter in use behind the CVaR filter: the function that is not judged (the first unfiltered one) is
+        # mapped to a second CVaR filter (the whole ensemble, on the first objective) that comes last in the list
+        cfg["realization_filters"] = cfg["realization_filters"] + [{"method": "cvar-objective", "options": {"sort": [0], "percentile": 1.0}}]
+        trailing = len(cfg["realization_filters"]) - 1
+        for sect in ("objectives", "nonlinear_constraints"):
+            if sect in cfg and "realization_filters" in cfg[sect] and -1 in cfg[sect]["realization_filters"]:
+                maps = list(cfg[sect]["realization_filters"])
+                maps[maps.index(-1)] = trailing
+                cfg[sect]["realization_filters"] = maps
+                break
     return EnOptConfig.model_validate(cfg), objs, cons, failed, col
 
 
@@ -160,6 +173,19 @@ def extra_scenarios(tier: str, seed: int):
                 failed = [False] * n
                 out.append({"n": n, "val": [int(v) - 2 for v in perm], "o2": [0] * n, "failed": failed,
                             "k": k, "D": D, "fl": ["obj", "le", "ge", "eq", "objneg"][(k + n) % 5], "multi": False, "target": 1})
+    # percentiles whose float product with n falls a hair below / above an integer: the floats next to k/n, and grids
+    # k/n for sizes whose products are inexact
+    for n in ((2, 3, 4, 5, 6, 7) if tier == "quick" else range(2, 13)):
+        for k in range(1, n + 1):
+            for ulp in (-1, 1):
+                perm = rng.permutation(n) + 1
+                out.append({"n": n, "val": [int(v) - 2 for v in perm], "o2": [0] * n, "failed": [False] * n, "k": k, "D": n, "ulp": ulp,
+                            "fl": ["obj", "le", "ge", "eq", "objneg"][(k + n) % 5], "multi": False, "target": 1})
+    for n in ((22, 47, 49) if tier == "quick" else (22, 23, 29, 41, 47, 49, 53, 100)):
+        for k in range(1, n + 1):
+            perm = rng.permutation(n) + 1
+            out.append({"n": n, "val": [int(v) - 2 for v in perm], "o2": [0] * n, "failed": [False] * n, "k": k, "D": n,
+                        "fl": ["obj", "le", "ge", "eq", "objneg"][(k + n) % 5], "multi": False, "target": 1})
     reps = 300 if tier == "quick" else 3000
     for _ in range(reps):
         n = int(rng.integers(5, 13))
